@@ -780,7 +780,7 @@ def run(ctx: Any) -> None:
     thorough = ctx.tier == "thorough"
     check_meta(ctx, S)
     bound = 3 if thorough else 2
-    per = ctx.budget(550, 3000)  # schedules per program: all with 0 preemptions, then 1, then 2 … up to the cap
+    per = ctx.budget(400, 2000)  # schedules per program: all with 0 preemptions, then 1, then 2 … up to the cap
     cfgs: list[tuple[dict[str, Any], int, int, int]] = []
     for c in CORPUS:
         cfgs.append((dict(c, src="corpus"), per, bound, per // 10))
